@@ -154,6 +154,10 @@ def make (spec0):
             spec ['geo'] = spec ['geo'][1:]
             spec.pop ('gcurve')
             spec.pop ('tr')
+    # the whole structure scaled by an option (inches, feet, ...): matching distances scale with it
+    rs = np.random.default_rng ([spec0 ['seed'], 121, spec0 ['i']])
+    if rs.random () < 0.25:
+        spec ['sc'] = [[float (rs.choice ([0.0254, 0.3048, 39.37, 3.0, 0.1, 10.0, 0.5])), None]]
     return spec
 # end def make
 
@@ -241,6 +245,7 @@ def check (spec0):
         return dict (status = 'discard', reason = 'two ends within 3 % of the matching tolerance')
     m    = gen.build (spec)
     tol  = spec ['tol']
+    fac  = float (spec ['sc'][0][0]) if spec.get ('sc') else 1.0
     viol = []
     mon  = {}
     def bad (monitor, key, msg):
@@ -266,6 +271,9 @@ def check (spec0):
                 njp += 1
             ks.append (P)
         greedy = len (pts) - spec ['_nlattice'] + njp
+    # (scaling comes last: expected positions and the matching tolerance are those of the scaled structure)
+    pts = [q * fac for q in pts]
+    tol = tol * fac
     # count
     mon ['count'] = 1
     if len (m.pulses) != len (pts) and greedy is not None and len (m.pulses) == greedy:
@@ -333,7 +341,7 @@ def check (spec0):
     sig = '|'.join (str (x) for x in
         ( 'gnd' if spec ['media'] else 'free', sorted (sizes), n_gnd, classes
         , 'seg1' if any (w [2] == 1 for w in spec ['wires']) else '', 'arc' if spec.get ('arc') else ('gcurve-' + spec ['gcurve']['k'] if spec.get ('gcurve') else '')
-        , 'T' if any (g.get ('tag') for g in spec ['geo']) else 'a'))
+        , 'T' if any (g.get ('tag') for g in spec ['geo']) else 'a', 'sc' if fac != 1 else ''))
     return dict ( status = 'violation' if viol else 'held', sig = sig
                 , nontrivial = bool (sizes and max (sizes) >= 2 or n_gnd), monitors = mon, violations = viol [:6]
                 , info = dict (N = len (m.pulses), sizes = sorted (sizes), n_gnd = n_gnd))
